@@ -69,3 +69,16 @@ pub assume_specification[ i64::checked_abs ](x: i64) -> (r: Option<i64>)
 pub assume_specification[ i64::signum ](x: i64) -> (r: i64)
     ensures r == (if x < 0 { -1i64 } else if x == 0 { 0i64 } else { 1i64 });
 } // verus!
+verus! {
+pub open spec fn ord_reverse(o: Ordering) -> Ordering { match o { Ordering::Less => Ordering::Greater, Ordering::Equal => Ordering::Equal, Ordering::Greater => Ordering::Less } }
+pub open spec fn ord_then(o: Ordering, p: Ordering) -> Ordering { match o { Ordering::Equal => p, _ => o } }
+pub assume_specification[ Ordering::reverse ](o: Ordering) -> (r: Ordering) ensures r == ord_reverse(o);
+pub assume_specification[ Ordering::then ](o: Ordering, p: Ordering) -> (r: Ordering) ensures r == ord_then(o, p);
+} // verus!
+verus! {
+// bool's Ord (false < true): vstd leaves OrdSpec for bool open
+pub open spec fn bool_cmp(a: bool, b: bool) -> Ordering { if a == b { Ordering::Equal } else if !a { Ordering::Less } else { Ordering::Greater } }
+pub broadcast axiom fn bool_obeys_cmp() ensures #[trigger] <bool as vstd::std_specs::cmp::OrdSpec>::obeys_cmp_spec();
+pub broadcast axiom fn bool_cmp_spec(a: bool, b: bool) ensures #[trigger] <bool as vstd::std_specs::cmp::OrdSpec>::cmp_spec(&a, &b) == bool_cmp(a, b);
+pub broadcast group bool_ord { bool_obeys_cmp, bool_cmp_spec }
+} // verus!
